@@ -66,6 +66,19 @@ func (w *wrapNode) Reopen() error     { return w.inner.Reopen() }
 func (w *wrapNode) Type() el.NodeType { return w.inner.Type() }
 func (w *wrapNode) Unwrap() el.Node   { return w.inner }
 
+// nilWrapNode is a wrapper without Close whose Unwrap yields nil (a lazily initialised wrapper never used): the controller
+// must treat it as not closable and return
+type nilWrapNode struct {
+	h *hnode
+}
+
+func (p *nilWrapNode) Process(ctx context.Context, e *el.Event) (*el.Event, error) {
+	return p.h.Process(ctx, e)
+}
+func (p *nilWrapNode) Reopen() error     { return p.h.Reopen() }
+func (p *nilWrapNode) Type() el.NodeType { return p.h.Type() }
+func (p *nilWrapNode) Unwrap() el.Node   { return nil }
+
 // plainNode has neither Close nor Unwrap
 type plainNode struct {
 	h *hnode
@@ -85,6 +98,8 @@ func hnodeOf(n el.Node) *hnode {
 		case *wrapNode:
 			n = t.inner
 		case *plainNode:
+			return t.h
+		case *nilWrapNode:
 			return t.h
 		default:
 			return nil
@@ -113,7 +128,7 @@ type Op struct {
 	IDs  []int  `json:"ids,omitempty"`
 	V    int64  `json:"v,omitempty"`
 	Fail int    `json:"fail,omitempty"`
-	Wrap int    `json:"wrap,omitempty"` // regnode: 0 plain Closer, 1/2 wrapped once/twice behind Unwrap, 3 no Close method
+	Wrap int    `json:"wrap,omitempty"` // regnode: 0 plain Closer, 1/2 wrapped once/twice behind Unwrap, 3 no Close method, 4 wrapper whose Unwrap is nil
 }
 type Case struct {
 	ID         int    `json:"id"`
@@ -308,6 +323,8 @@ func (w *world) apply(op Op, closeFails map[int]bool) Obs {
 			node = &wrapNode{inner: &wrapNode{inner: h}}
 		case 3:
 			node = &plainNode{h: h}
+		case 4:
+			node = &nilWrapNode{h: h}
 		}
 		err := w.b.RegisterNode(nid(op.ID), node, polOpt(op.Pol, true)...)
 		o.Ok, o.Err = err == nil, err != nil
@@ -364,24 +381,44 @@ func (w *world) apply(op Op, closeFails map[int]bool) Obs {
 	return o
 }
 
+// execCase runs a history on a fresh Broker. Every history runs on its own goroutine under a watchdog: a Broker call that
+// does not return (a self-deadlock, a loop that never ends) is reported like a panic, with the history as the replay; the
+// stuck goroutine is abandoned.
 func execCase(c Case) (obs []Obs, panicked interface{}) {
-	defer func() {
-		if r := recover(); r != nil {
-			panicked = r
+	type result struct {
+		obs []Obs
+		p   interface{}
+	}
+	done := make(chan result, 1)
+	var step int32
+	go func() {
+		var res result
+		defer func() {
+			if r := recover(); r != nil {
+				res.p = r
+			}
+			done <- res
+		}()
+		b, _ := el.NewBroker()
+		w := &world{b: b, objs: map[int]*hnode{}}
+		cf := map[int]bool{}
+		for _, x := range c.CloseFails {
+			cf[x] = true
+		}
+		for i, op := range c.Ops {
+			atomic.StoreInt32(&step, int32(i))
+			o := w.apply(op, cf)
+			w.observe(c.Types, &o)
+			res.obs = append(res.obs, o)
 		}
 	}()
-	b, _ := el.NewBroker()
-	w := &world{b: b, objs: map[int]*hnode{}}
-	cf := map[int]bool{}
-	for _, x := range c.CloseFails {
-		cf[x] = true
+	select {
+	case r := <-done:
+		return r.obs, r.p
+	case <-time.After(10 * time.Second):
+		i := int(atomic.LoadInt32(&step))
+		return nil, fmt.Sprintf("HANG: call %d (%s) did not return within 10s", i, c.Ops[i].K)
 	}
-	for _, op := range c.Ops {
-		o := w.apply(op, cf)
-		w.observe(c.Types, &o)
-		obs = append(obs, o)
-	}
-	return obs, nil
 }
 
 // canonical key of the implementation state after a history (for BFS deduplication)
@@ -461,7 +498,7 @@ func caseLit(c Case, obs []Obs) string {
 	}
 	var nonClosers []int
 	for _, op := range c.Ops {
-		if op.K == "regnode" && op.Wrap == 3 {
+		if op.K == "regnode" && op.Wrap >= 3 {
 			nonClosers = append(nonClosers, op.Obj)
 		}
 	}
@@ -685,7 +722,7 @@ func genRandom(e *emitter, r *hc.Rand, n, maxLen int) {
 				}
 				wrap := 0
 				if r.Chance(1, 3) {
-					wrap = 1 + r.Intn(3)
+					wrap = 1 + r.Intn(4)
 				}
 				ops = append(ops, Op{K: "regnode", ID: id, Ty: ty, Pol: pol, Wrap: wrap})
 				registered[id] = true
@@ -986,7 +1023,7 @@ func main() {
 			}
 			// two roots: the empty broker (shallow), and a broker with the four nodes registered (the interesting part of the space)
 			d0, s0, ex0 := genBFS(e, 2, budget, *bfsReopen, nil)
-			seeded := numberObjs([]Op{{K: "regnode", ID: 1, Ty: 1, Wrap: 1}, {K: "regnode", ID: 2, Ty: 2}, {K: "regnode", ID: 3, Ty: 3, Wrap: 2}, {K: "regnode", ID: 4, Ty: 3}})
+			seeded := numberObjs([]Op{{K: "regnode", ID: 1, Ty: 1, Wrap: 1}, {K: "regnode", ID: 2, Ty: 2}, {K: "regnode", ID: 3, Ty: 3, Wrap: 2}, {K: "regnode", ID: 4, Ty: 3, Wrap: 4}})
 			d, s, ex := genBFS(e, *bfsDepth, budget, *bfsReopen, seeded)
 			summary["bfs_empty_root_depth_completed"] = d0
 			summary["bfs_depth_completed"] = d
